@@ -245,6 +245,10 @@ theorem initdb_shape :
     Qryn.Gen.CtrlFlow.connectAddr = "[]string{fmt.Sprintf(\"%s:%d\", dbObject.Host, dbObject.Port)}" := by
   refine ⟨rfl, rfl, rfl, rfl, rfl⟩
 
+/-- **Where the version is read from** (re-extracted): `ver` without a cluster, `ver_dist` — the rows of all nodes —
+    with one (`CProg.dist`); the version row is always written to the connected node's `ver` (`loop_shape`). -/
+theorem version_read_tables : verTables = ["ver", "ver_dist"] := rfl
+
 /-- **cluster_start_refines.** For every mode, every parameter instance, every cluster of any size in any state,
     every connection and every failure point (any call, taking effect on any set of nodes, killed or error): on every
     node that takes part (the connected node; with a configured cluster every node) whose own single-catalogue start
